@@ -21,7 +21,7 @@ RULE = ("Histories over a pool of operations on SHARED instances (one XmlContext
         "in different modules, subclasses reached by xsi:type, the same xsi:type name in two unrelated families, wildcards "
         "meeting many names, union fields, modules with and without __NAMESPACE__), failing calls (malformed documents, wrong "
         "class, unconvertible values), parsing without a target class, documents re-binding prefixes, importing a new model "
-        "module mid-history, user prefix maps. After EVERY step the outcome on the shared instances (value by structural "
+        "module mid-history, user prefix maps, models whose forward references resolve only through SerializerConfig.globalns. After EVERY step the outcome on the shared instances (value by structural "
         "equality, or exception type) must equal the outcome of the same call on freshly constructed instances in the same "
         "process. All histories of length <= 2 (quick; <= 3 thorough) over the pool are enumerated; longer histories (<= 30 "
         "steps) come from a Hypothesis rule-based state machine. Non-trivial = the history holds a failing call or two "
@@ -157,6 +157,26 @@ class Sched:                      # a compound field whose choices are told apar
         {"name": "d", "type": XmlDate}, {"name": "dt", "type": XmlDateTime}, {"name": "n", "type": int})})
 
 
+def _local_models():
+    """Classes that are not module-level names: the forward reference resolves only through SerializerConfig.globalns."""
+    @dataclass
+    class LocalInner:
+        x: Optional[int] = field(default=None, metadata={"type": "Element"})
+
+    @dataclass
+    class LocalOuter:
+        class Meta:
+            name = "localOuter"
+        inner: Optional["LocalInner"] = field(default=None, metadata={"type": "Element"})
+        more: List["LocalInner"] = field(default_factory=list, metadata={"type": "Element"})
+
+    return LocalOuter, LocalInner
+
+
+# (bound to other module-level names on purpose: "LocalInner" must not resolve through this module's globals)
+_LOuter, _LInner = _local_models()
+LOCALNS = {"LocalInner": _LInner, "Optional": Optional, "List": List}
+
 XSI = 'xmlns:xsi="http://www.w3.org/2001/XMLSchema-instance"'
 DOCS = {
     "a1": '<x:a xmlns:x="urn:a"><x:c k="1"><x:v>one</x:v></x:c><x:n>5</x:n><x:q xmlns:p="urn:p1">p:name</x:q></x:a>',
@@ -189,6 +209,7 @@ OBJS = {
     "P": lambda: Pick(value=Child("c", 1), many=[1, Child("x"), 2]),
     "PA": lambda: PA(kid=Kid(k="1", own="x")),
     "PB": lambda: PB(kid=Kid(k="2", own="y")),
+    "L": lambda: _LOuter(inner=_LInner(x=7), more=[_LInner(x=1), _LInner()]),
     "S1": lambda: Sched(when=[XmlDate(2001, 10, 26), 7]),
     "S2": lambda: Sched(when=[XmlDateTime(2001, 10, 26, 21, 32, 52), XmlDate(2001, 10, 26)]),
 }
@@ -264,6 +285,8 @@ OPS = [
     ("json decode bad date as Sched", "json", ("jsbad", "Sched", True)),
     ("serialize Sched 1", "serialize", ("S1", None)),
     ("serialize Sched 2", "serialize", ("S2", None)),
+    ("serialize local model through globalns", "serialize-local", ("L",)),
+    ("json encode local model through globalns", "encode-local", ("L",)),
     ("parse rootx5 without class (lxml)", "parse", ("lxml", "rootx5", None, True)),
     ("parse plain-w without class (lxml)", "parse", ("lxml", "plain-w", None, True)),
 ]
@@ -281,6 +304,8 @@ class Instances:
         self.serializer = XmlSerializer(context=self.context, config=SerializerConfig(xml_declaration=False))
         self.json_parsers = {s: JsonParser(context=self.context, config=ParserConfig(**(STRICT if s else LENIENT))) for s in (True, False)}
         self.json_serializer = JsonSerializer(context=self.context)
+        self.serializer_local = XmlSerializer(context=self.context, config=SerializerConfig(xml_declaration=False, globalns=LOCALNS))
+        self.json_serializer_local = JsonSerializer(context=self.context, config=SerializerConfig(globalns=LOCALNS))
         self.decoder = DictDecoder(context=self.context, config=ParserConfig(**STRICT))
         self.encoder = DictEncoder(context=self.context)
         self.tree = TreeParser(context=self.context)
@@ -304,6 +329,10 @@ def do(op, inst: Instances):
             elif kind == "serialize":
                 obj, nsm = args
                 val = inst.serializer.render(OBJS[obj](), ns_map={k: v for k, v in nsm} if nsm else None)
+            elif kind == "serialize-local":
+                val = inst.serializer_local.render(OBJS[args[0]]())
+            elif kind == "encode-local":
+                val = inst.json_serializer_local.render(OBJS[args[0]]())
             elif kind == "json":
                 doc, cls, strict = args
                 val = inst.json_parsers[strict].from_string(JSONS[doc], getattr(mod, cls) if cls else None)
